@@ -105,6 +105,8 @@ RULES = {
     "ONE-PER-PAIR": _mod("rules2", "rule_one_per_pair"),
     "NONDET": _mod("rules2", "rule_nondet"),
     "UNIT-INTERVAL": _mod("rules2", "rule_unit_interval"),
+    "EXACT-IDS": _mod("rules2", "rule_exact_ids"),
+    "SEED-TOTAL": _mod("rules2", "rule_seed_total"),
     "RELAX-AGREE": _mod("bfm", "rule_relax_agree"),
     "FW-SHAPE": _mod("relax", "rule_fw_shape"),
     "DM-QUERIES": _mod("relax", "rule_dm_queries"),
@@ -203,19 +205,22 @@ PROPERTY_RULES = {
         "assumptions": COMMON_ASSUMPTIONS,
     },
     "C11": {
-        "rules": ["PURE-OPS", "IDSRC-OPS", "CONC-OPS"],
+        "rules": ["PURE-OPS", "IDSRC-OPS", "CONC-OPS", "BITS"],
         "explanation": "complement / converse / union / filter_vertices: operands are unchanged (PURE on these methods and "
                        "their closures); AdjacencyMap's implementations never use 0..order, a position or a count as a vertex "
                        "id (IDSRC); the threaded AdjacencyList::{complement, union} and AdjacencyMap::union join every worker "
                        "before returning, workers write only their own partition slots, and the row partition matches a proven "
-                       "tiling template (CONC/TILE; AdjacencyMap::union's merge path is a trusted entry).",
+                       "tiling template (CONC/TILE; AdjacencyMap::union's merge path is a trusted entry). BITS: an operation of "
+                       "AdjacencyMatrix writes the bit matrix only cell by cell (i >> 6, 1 << (i & 63)); whole words are combined only "
+                       "as `a |= b` on the same word of two matrices under a check that their orders are equal (a word-wise union of "
+                       "matrices of different orders puts arcs at the wrong cells).",
         "trusted_base": TB + ["lemma L-TILE", "tables/trusted_tiles.json"],
         "not_decided": "that the arc set is the set-theoretic one; involution/commutativity; validity of literal-built results of "
                        "the contiguous types (value-level set reasoning through iterator chains)",
         "assumptions": COMMON_ASSUMPTIONS,
     },
     "C12": {
-        "rules": ["IDSRC-PRED", "CONC-PRED", "MEM-AMAP-PRED", "DEFN-PREDS"],
+        "rules": ["IDSRC-PRED", "CONC-PRED", "MEM-AMAP-PRED", "DEFN-PREDS", "BITS"],
         "explanation": "Only the structural sites of the predicates are decided: AdjacencyMap::{is_semicomplete, is_tournament} "
                        "never index positional storage by vertex id and contain no undischarged unsafe site; the shared early-"
                        "exit flag of the parallel AdjacencyList::is_semicomplete is only ever stored `false` (monotone), its "
@@ -224,25 +229,28 @@ PROPERTY_RULES = {
                        "has_arc(u,v) OR has_arc(v,u) and of is_tournament XOR (truth tables over the call atoms), applied by "
                        "all() over u in 0..order, v in u+1..order; is_symmetric / is_oriented test has_arc(v,u) / its negation for "
                        "every arc (u,v); is_balanced tests indegree(u) == outdegree(u) for all vertices; is_spanning_subdigraph and "
-                       "is_subdigraph require d.has_arc(u,v) for every arc of self; is_superdigraph(d) = d.is_subdigraph(self).",
+                       "is_subdigraph require d.has_arc(u,v) for every arc of self; is_superdigraph(d) = d.is_subdigraph(self). "
+                       "A predicate of AdjacencyMatrix that reads the bit matrix directly masks a word only with the bit of a cell that "
+                       "lives in that word (BITS, bit-read clause).",
         "trusted_base": TB + ["lemma L-TILE"],
         "not_decided": "is_complete, is_regular, is_simple, the AdjacencyList/AdjacencyMap pair scans written over raw rows, the "
                        "vertex-set clauses of sub/spanning subdigraph: value-level",
         "assumptions": COMMON_ASSUMPTIONS,
     },
     "C14": {
-        "rules": ["ADMISSIBLE-DET", "CONC-COMPLETE", "BITS"],
+        "rules": ["ADMISSIBLE-DET", "CONC-COMPLETE", "BITS", "EXACT-IDS"],
         "explanation": "For the 33 deterministic generator impls every path to a normal return passes the admissibility test "
                        "(order > 0, wheel order >= 4, m > 0 and n > 0) or a delegation to Self::empty/trivial that performs it; "
                        "bit-matrix generators set cells only through single-bit read-modify-writes (BITS); "
                        "the parallel AdjacencyList::complete joins all workers, partitions rows by the proven template and "
-                       "re-sorts by vertex.",
+                       "re-sorts by vertex. Vertex ids are computed with exact arithmetic: a wrapping_* operation in a generator is "
+                       "accepted only where the facts exclude the wrap-around (EXACT-IDS).",
         "trusted_base": TB + ["lemma L-TILE"],
         "not_decided": "the arc sets of the generators (the core of the property): closed-form arithmetic, value-level",
         "assumptions": COMMON_ASSUMPTIONS,
     },
     "C15": {
-        "rules": ["NONDET", "ADMISSIBLE-SEEDED", "ONE-PER-PAIR", "CONC-SEEDED", "UNIT-INTERVAL"],
+        "rules": ["NONDET", "ADMISSIBLE-SEEDED", "ONE-PER-PAIR", "CONC-SEEDED", "UNIT-INTERVAL", "SEED-TOTAL"],
         "explanation": "No library body reaches an ambient source of nondeterminism (time, hash-order containers, thread ids, "
                        "env, OS RNG) and the CPU count flows into a PRNG seed only in the two documented AdjacencyMap "
                        "generators (NONDET); every seeded generator checks order > 0 and p in [0, 1] before returning "
@@ -250,7 +258,9 @@ PROPERTY_RULES = {
                        "and v->u on the other, random_recursive_tree draws the parent as x % u (ONE-PER-PAIR); the threaded "
                        "AdjacencyMap generators join their workers and partition rows by the proven template (CONC); "
                        "Xoshiro256StarStar::next_f64 lies in [0, 1) by integer interval arithmetic on its constants: "
-                       "from_bits(1023 << 52 | (x & (2^52 - 1))) - 1.0, or an integer below C divided by C (UNIT-INTERVAL).",
+                       "from_bits(1023 << 52 | (x & (2^52 - 1))) - 1.0, or an integer below C divided by C (UNIT-INTERVAL). No "
+                       "overflow-checked arithmetic is applied to a value derived from the seed, in the generators or their worker "
+                       "closures: every seed is accepted (SEED-TOTAL).",
         "trusted_base": TB,
         "not_decided": "the distribution of the draws (statistical quality), that `next_f64() < p` realises probability p",
         "assumptions": COMMON_ASSUMPTIONS,
